@@ -56,6 +56,9 @@ def check(run, prog, tier):
     run.rule("C16-I", "the propagator works in the rotating frame of its Hamiltonian and says so: the result is marked, the "
                       "initial state enters the frame at the first point of the time axis", minimum=3)
     rule_I(run, prog)
+    run.rule("C16-J", "the hierarchy takes the parameters of a bath from all its components or refuses a bath that has more than "
+                      "one", minimum=1)
+    rule_J(run, prog)
     run.rule("C16-H", "the hierarchy and its propagator read energies under internal units (reorganisation "
                       "energies, Hamiltonian)", minimum=3)
     from . import intunits
@@ -600,3 +603,40 @@ def rule_D(run, prog):
     ok = len(st) == 1 and st[0].startswith("self.ado = numpy.zeros((self.hsize, self.dim, self.dim)")
     run.obligation(rid, "KTHierarchy.reset_ados", ok, key="full-reset",
                    message="reset_ados must replace the whole array by zeros", loc=r.loc())
+
+
+def rule_J(run, prog):
+    """'Converges with increasing depth to exp(-i w t - g(t)) built from the bath's line-shape function': one hierarchy
+    index per bath represents one exponential term lam*gamma-like of the correlation function.  A bath whose correlation
+    function is a sum of components (cc.params has several entries) is represented only if every component is read.
+    In KTHierarchy.__init__ (and the accessors it uses) a read of component 0 alone - cc.params[0] - is admissible only
+    behind a refusal of len(cc.params) != 1, or inside a loop over all components."""
+    from ..loader import parents_map
+    rid = "C16-J"
+    f = prog.func("quantarhei.qm.liouvillespace.heom.KTHierarchy.__init__")
+    prog.consulted.add(f.relpath)
+    pm = parents_map(f.node)
+    reads = [x for x in walk_no_nested(f.node) if isinstance(x, ast.Subscript) and norm(x.value).endswith(".params")
+             and isinstance(x.slice, ast.Constant) and x.slice.value == 0]
+    if not reads:
+        raise AnalysisError("KTHierarchy.__init__: the read of the bath's component parameters not found")
+    for x in reads:
+        base = norm(x.value)
+        ok = False
+        node = x
+        while node is not None and node is not f.node and not ok:
+            p_ = pm.get(node)
+            for fld in ("body", "orelse"):
+                blk = getattr(p_, fld, None)
+                if isinstance(blk, list) and node in blk:
+                    for prev in blk[:blk.index(node)]:
+                        if isinstance(prev, ast.If) and ("len(%s)" % base) in norm(prev.test) and any(isinstance(y, ast.Raise) for y in prev.body):
+                            ok = True
+            if isinstance(p_, ast.For) and norm(p_.iter) == base:
+                ok = True
+            node = p_
+        run.obligation(rid, "KTHierarchy.__init__", ok, key="all-components:" + norm(x)[:30],
+                       message="KTHierarchy.__init__ reads %s, the first component of the bath only, without refusing baths that have more "
+                               "components: a bath given as a sum of correlation functions is replaced by one exponential term with the "
+                               "total reorganisation energy and the first correlation time, and the result converges to another function "
+                               "than the bath's" % norm(x), loc=f.loc(x))
